@@ -53,7 +53,7 @@ def roland_image(names, lens, rates="same"):
     return img, pcms, "VOL/PERF/"
 
 
-def judge(names, lens, res, pcms, prefix):
+def judge(names, lens, res, pcms, prefix, conservation_only=False):
     """Statement-level oracle. names: stored names (padding stripped). -> (ok, klass, detail)"""
     if res["status"] == "hang":
         return False, "hang", {"observed": "non-termination"}
@@ -75,6 +75,12 @@ def judge(names, lens, res, pcms, prefix):
     total_channels = sum(riff.validate(b).fmt["channels"] for b in files.values())
     if total_channels != len(names):
         return False, "channel-sum", {"channels": total_channels, "samples": len(names), "files": sorted(files)}
+    if conservation_only:
+        # names that only BECOME an L/R form when they are made file-system safe (a trailing dot / blank is dropped): whether
+        # such names pair is not settled by the statement; nothing may be lost or written twice
+        if sorted(res["reported"]) != sorted(files):
+            return False, "reported-vs-disk", {"reported": sorted(res["reported"]), "files": sorted(files)}
+        return True, "ok:conservation", None
     pairs, amb, mono = N.pair_analysis(names)
     claimed = [N.wordkey(names[i]) for i in mono] + [N.wordkey(names[i]) for i in amb] + [N.wordkey(s) for _, _, s in pairs]
     for iL, iR, stem in pairs:
@@ -129,7 +135,7 @@ def run_case(case):
     if res.get("again") and res["status"] == "ok":
         return False, "second-export-differs", res["again"]
     stored = [n.rstrip(" ") for n in names]
-    return judge(stored, lens, res, pcms, prefix)
+    return judge(stored, lens, res, pcms, prefix, conservation_only=bool(case.get("sanitised")))
 
 
 class Check(CheckBase):
@@ -141,7 +147,8 @@ class Check(CheckBase):
             "performance, 11 names (incl. lower-case 'l' / 'r' endings, which are not L/R forms), k<=2 (quick) / k<=3 (thorough); equal lengths (10 frames), and unequal lengths, differing sample "
             "rates, single-frame samples and samples of 2049 frames (one more than the transcoder block) for k<=2 (quick) / "
             "all (thorough); AKAI header names that differ from the directory names (rotated among the siblings / 'DRUM L', 'DRUM R') "
-            "for k<=2 over 14 names and k=3 over 6; large directories: 201 AKAI siblings (70 Roland) with an L/R pair at every pair of adjacent positions "
+            "for k<=2 over 14 names and k=3 over 6; 2- and 3-tuples over 8 names that become an L/R form only when a trailing dot / blank is "
+            "dropped (conservation only: nothing lost, nothing written twice); large directories: 201 AKAI siblings (70 Roland) with an L/R pair at every pair of adjacent positions "
             "and at far-apart positions. Oracle: every sample's position-coded PCM in exactly one channel of exactly one file; channel sum = "
             "sample count; unambiguous P+'L'/P+'R' pairs (P ending in blank/hyphen, exactly one of each) in one 2-channel file, "
             "L in channel 0, all frames when equal length, named after the stem when the stem is safe and unclaimed; others "
@@ -164,6 +171,11 @@ class Check(CheckBase):
             for t in itertools.product(AKAI_NAMES if k < 3 else AKAI_N4, repeat=k):
                 for hdr in ("rot", "lr"):
                     cases.append({"fmt": "akai", "names": list(t), "lens": "eq", "hdr": hdr})
+        # names that become an L/R form only after sanitising (trailing dot / blank dropped), every order, next to real forms
+        san = ["A-L .", "A-R .", "A-L.", "A L .", "A-R", "A-L", "A .", "A"]
+        for k in (2, 3):
+            for t in itertools.product(san, repeat=k):
+                cases.append({"fmt": "akai", "names": list(t), "lens": "eq", "sanitised": True})
         if self.quick:
             for t in itertools.product(AKAI_N4, repeat=4):
                 cases.append({"fmt": "akai", "names": list(t), "lens": "eq"})
